@@ -8,9 +8,13 @@ package api
 //@ ghost var G12E int
 //@ ghost var G12evals int
 //@
+//@ // G12claim: proof-mode constant. 1 = the C12 claim (the underlying rate is non-negative, as the property's
+//@ // quantifier says); 0 = nothing is assumed about the underlying rate (C14: it must still not crash).
+//@ ghost var G12claim int
+//@
 //@ fnspec nonnegRate(now time.Time) (r int)
 //@   modifies nothing
-//@   ensures r >= 0
+//@   ensures G12claim == 1 ==> r >= 0
 //@
 //@ fnspec anyRand(n int) (r int)
 //@   requires n > 0
@@ -18,13 +22,14 @@ package api
 //@   ensures r >= 0
 //@
 //@ func withRandomDistribution$1
-//@   props C12
+//@   props C12 C14
 //@   dyncall rateFn : nonnegRate
 //@   dyncall randFn : anyRand
 //@   inv rateFn != nil && randFn != nil
-//@   inv tickSteps >= 1 && 0 <= remainingSteps && remainingSteps <= tickSteps && remainingRate >= 0 && G12E >= 0
-//@   inv remainingSteps > 0 ==> G12E + remainingRate == G12R
-//@   inv remainingSteps == 0 ==> G12E == G12R
+//@   inv tickSteps >= 1 && 0 <= remainingSteps && remainingSteps <= tickSteps
+//@   inv G12claim == 1 ==> (remainingRate >= 0 && G12E >= 0)
+//@   inv G12claim == 1 ==> (remainingSteps > 0 ==> G12E + remainingRate == G12R)
+//@   inv G12claim == 1 ==> (remainingSteps == 0 ==> G12E == G12R)
 //@   ghost after call dyn:rateFn #0 : G12R = ret0 ; G12E = 0 ; G12evals = G12evals + 1
 //@   ghost at exit : G12E = G12E + result
 //@   modifies remainingSteps, remainingRate, G12R, G12E, G12evals
@@ -88,6 +93,9 @@ package api
 //@ ghost var GJreq real
 //@ ghost var GJj real
 //@ ghost var GJB real
+//@ // GJclaim: proof-mode constant. 1 = the C13 claim is being made (jitter percentage in range, bounded underlying
+//@ // rate); 0 = no assumption about the jitter argument (C14: any value the user passes must still yield a usable function).
+//@ ghost var GJclaim int
 //@ pred jitterConsts(m real) = 0.000001 <= m && m <= 99.0 && GJj == (m / 100.0) * (1.0 + 1.0 / 1048576.0) &&
 //@     0 <= GJrmax && GJrmax <= 17592186044416 && GJB * (1.0 - GJj) >= GJj * real(GJrmax) + 1.0 && 1.0 <= GJB && GJB <= 2251799813685248.0
 //@
@@ -98,8 +106,10 @@ package api
 //@ func WithJitter$1
 //@   props C13
 //@   dyncall rate : boundedRate
-//@   inv rate != nil && jitterConsts(multiple)
-//@   inv balance == real(GJin - GJout) && abs(balance) <= GJB
+//@   requires GJclaim == 1
+//@   inv rate != nil
+//@   inv GJclaim == 1 ==> jitterConsts(multiple)
+//@   inv GJclaim == 1 ==> (balance == real(GJin - GJout) && abs(balance) <= GJB)
 //@   ghost after call dyn:rate : GJin = GJin + ret0 ; GJreq = real(ret0) + balance
 //@   assert before call math.Round : [factor] abs(variationFactor - 1.0) <= GJj
 //@   ghost before call math.Round : rewrite [req-exact] requestedRate = GJin - GJout
@@ -113,9 +123,9 @@ package api
 //@   ensures [carried] balance == GJreq - real(result)
 //@
 //@ func WithJitter
-//@   props C13 C10
+//@   props C13 C10 C14
 //@   requires rate != nil
-//@   requires multiple == 0.0 || (jitterConsts(multiple) && GJin == GJout)
+//@   requires GJclaim == 1 ==> (multiple == 0.0 || (jitterConsts(multiple) && GJin == GJout))
 //@   ensures [identity] multiple == 0.0 ==> result == rate
 //@   ensures [jittered] multiple != 0.0 ==> result != nil
 //@
